@@ -2,6 +2,7 @@
 C19 — property theorems.
 -/
 import DebInspector.Props.C19
+import DebInspector.Proofs.SplitJoin
 
 namespace Props.C19
 open Py Model.Control
@@ -82,5 +83,421 @@ theorem conventional_idem_table :
 example : model ⟨.pairs [("A".toList, "1".toList), ("b".toList, "2".toList)],
     [.set "a".toList "3".toList, .iter, .del "B".toList, .mem "b".toList, .get "A".toList, .del "x".toList, .len]⟩ =
     [.none, .keys ["a".toList, "b".toList], .none, .bool false, .str "3".toList, .keyError, .int 1] := by decide +kernel
+
+
+/-! ## typed fields: the conventional capitalisation for every name -/
+
+theorem upper_iff (c : Char) : isAsciiUpper c = true ↔ 65 ≤ c.toNat ∧ c.toNat ≤ 90 := by
+  simp [isAsciiUpper, Char.isUpper, UInt32.le_iff_toNat_le]
+
+theorem lower_iff (c : Char) : isAsciiLower c = true ↔ 97 ≤ c.toNat ∧ c.toNat ≤ 122 := by
+  simp [isAsciiLower, Char.isLower, UInt32.le_iff_toNat_le]
+
+theorem case_table : ∀ n ∈ List.range 128,
+    lowerAsciiChar (lowerAsciiChar (Char.ofNat n)) = lowerAsciiChar (Char.ofNat n) ∧
+    lowerAsciiChar (upperAsciiChar (Char.ofNat n)) = lowerAsciiChar (Char.ofNat n) ∧
+    upperAsciiChar (upperAsciiChar (Char.ofNat n)) = upperAsciiChar (Char.ofNat n) ∧
+    upperAsciiChar (lowerAsciiChar (Char.ofNat n)) = upperAsciiChar (Char.ofNat n) ∧
+    ((lowerAsciiChar (Char.ofNat n) == '-') = (Char.ofNat n == '-')) ∧
+    ((upperAsciiChar (Char.ofNat n) == '-') = (Char.ofNat n == '-')) := by
+  decide +kernel
+
+theorem case_facts (c : Char) :
+    lowerAsciiChar (lowerAsciiChar c) = lowerAsciiChar c ∧
+    lowerAsciiChar (upperAsciiChar c) = lowerAsciiChar c ∧
+    upperAsciiChar (upperAsciiChar c) = upperAsciiChar c ∧
+    upperAsciiChar (lowerAsciiChar c) = upperAsciiChar c ∧
+    ((lowerAsciiChar c == '-') = (c == '-')) ∧
+    ((upperAsciiChar c == '-') = (c == '-')) := by
+  by_cases h : c.toNat < 128
+  · have := case_table c.toNat (by simpa using h)
+    rwa [Char.ofNat_toNat] at this
+  · have hu : isAsciiUpper c = false := by
+      cases hc : isAsciiUpper c with
+      | false => rfl
+      | true => have := (upper_iff c).mp hc; omega
+    have hl : isAsciiLower c = false := by
+      cases hc : isAsciiLower c with
+      | false => rfl
+      | true => have := (lower_iff c).mp hc; omega
+    simp [lowerAsciiChar, upperAsciiChar, hu, hl]
+
+
+/-- the conventional spelling of one hyphen-separated word -/
+def convWord (w : Str) : Str :=
+  let l := lowerAscii w
+  if l = "md5sum".toList then "MD5sum".toList
+  else if l = "sha1".toList then "SHA1".toList
+  else if l = "sha256".toList then "SHA256".toList
+  else capitalizeAscii w
+
+theorem conventional_eq (name : Str) : conventional name = join ['-'] ((splitChar '-' name).map convWord) := rfl
+
+theorem lowerAscii_lower (w : Str) : lowerAscii (lowerAscii w) = lowerAscii w := by
+  simp only [lowerAscii, List.map_map]
+  apply List.map_congr_left
+  intro c _; exact (case_facts c).1
+
+theorem lowerAscii_upper (w : Str) : lowerAscii (w.map upperAsciiChar) = lowerAscii w := by
+  simp only [lowerAscii, List.map_map]
+  apply List.map_congr_left
+  intro c _; exact (case_facts c).2.1
+
+theorem lowerAscii_cap (w : Str) : lowerAscii (capitalizeAscii w) = lowerAscii w := by
+  cases w with
+  | nil => rfl
+  | cons c cs =>
+    simp only [capitalizeAscii, lowerAscii, List.map_cons, List.map_map, (case_facts c).2.1]
+    congr 1
+    apply List.map_congr_left
+    intro d _; exact (case_facts d).1
+
+theorem cap_cap (w : Str) : capitalizeAscii (capitalizeAscii w) = capitalizeAscii w := by
+  cases w with
+  | nil => rfl
+  | cons c cs =>
+    simp only [capitalizeAscii, List.map_map, (case_facts c).2.2.1]
+    congr 1
+    apply List.map_congr_left
+    intro d _; exact (case_facts d).1
+
+theorem cap_lower (w : Str) : capitalizeAscii (lowerAscii w) = capitalizeAscii w := by
+  cases w with
+  | nil => rfl
+  | cons c cs =>
+    simp only [capitalizeAscii, lowerAscii, List.map_cons, List.map_map, (case_facts c).2.2.2.1]
+    congr 1
+    apply List.map_congr_left
+    intro d _; exact (case_facts d).1
+
+theorem cap_upper (w : Str) : capitalizeAscii (w.map upperAsciiChar) = capitalizeAscii w := by
+  cases w with
+  | nil => rfl
+  | cons c cs =>
+    simp only [capitalizeAscii, List.map_cons, List.map_map, (case_facts c).2.2.1]
+    congr 1
+    apply List.map_congr_left
+    intro d _; exact (case_facts d).2.1
+
+theorem lowerAscii_convWord (w : Str) : lowerAscii (convWord w) = lowerAscii w := by
+  unfold convWord
+  simp only
+  by_cases h1 : lowerAscii w = "md5sum".toList
+  · rw [if_pos h1, h1]; decide
+  · rw [if_neg h1]
+    by_cases h2 : lowerAscii w = "sha1".toList
+    · rw [if_pos h2, h2]; decide
+    · rw [if_neg h2]
+      by_cases h3 : lowerAscii w = "sha256".toList
+      · rw [if_pos h3, h3]; decide
+      · rw [if_neg h3]; exact lowerAscii_cap w
+
+/-- the word's spelling depends on the word only through its lower-cased form and its capitalisation -/
+theorem convWord_of (w v : Str) (hl : lowerAscii v = lowerAscii w) (hc : capitalizeAscii v = capitalizeAscii w) :
+    convWord v = convWord w := by
+  unfold convWord
+  simp only [hl, hc]
+
+theorem convWord_idem (w : Str) : convWord (convWord w) = convWord w := by
+  have hl := lowerAscii_convWord w
+  by_cases h1 : lowerAscii w = "md5sum".toList
+  · have e : convWord w = "MD5sum".toList := by unfold convWord; simp only [if_pos h1]
+    rw [e]; decide
+  · by_cases h2 : lowerAscii w = "sha1".toList
+    · have e : convWord w = "SHA1".toList := by unfold convWord; simp only [if_neg h1, if_pos h2]
+      rw [e]; decide
+    · by_cases h3 : lowerAscii w = "sha256".toList
+      · have e : convWord w = "SHA256".toList := by unfold convWord; simp only [if_neg h1, if_neg h2, if_pos h3]
+        rw [e]; decide
+      · have e : convWord w = capitalizeAscii w := by unfold convWord; simp only [if_neg h1, if_neg h2, if_neg h3]
+        have e2 : convWord (convWord w) = capitalizeAscii (convWord w) := by
+          unfold convWord
+          simp only
+          have : lowerAscii (convWord w) = lowerAscii w := hl
+          unfold convWord at this
+          simp only at this
+          rw [this, if_neg h1, if_neg h2, if_neg h3]
+        rw [e2, e, cap_cap]
+
+theorem convWord_lower (w : Str) : convWord (lowerAscii w) = convWord w :=
+  convWord_of w (lowerAscii w) (lowerAscii_lower w) (cap_lower w)
+
+theorem convWord_upper (w : Str) : convWord (w.map upperAsciiChar) = convWord w :=
+  convWord_of w (w.map upperAsciiChar) (lowerAscii_upper w) (cap_upper w)
+
+theorem capitalize_noDash (w : Str) (h : '-' ∉ w) : '-' ∉ capitalizeAscii w := by
+  cases w with
+  | nil => simp [capitalizeAscii]
+  | cons c cs =>
+    intro hm
+    simp only [capitalizeAscii, List.mem_cons, List.mem_map] at hm
+    rcases hm with hm | ⟨d, hd, hm⟩
+    · have := (case_facts c).2.2.2.2.2
+      have hc : (upperAsciiChar c == '-') = true := by simp [← hm]
+      rw [this] at hc
+      exact h (by simp [beq_iff_eq.mp hc])
+    · have := (case_facts d).2.2.2.2.1
+      have hc : (lowerAsciiChar d == '-') = true := by simp [hm]
+      rw [this] at hc
+      have : d = '-' := beq_iff_eq.mp hc
+      exact h (by rw [← this]; simp [hd])
+
+theorem convWord_noDash (w : Str) (h : '-' ∉ w) : '-' ∉ convWord w := by
+  unfold convWord
+  simp only
+  split
+  · decide
+  · split
+    · decide
+    · split
+      · decide
+      · exact capitalize_noDash w h
+
+theorem splitChar_map (f : Char → Char) (hf : ∀ c, (f c == '-') = (c == '-')) (s : Str) :
+    splitChar '-' (s.map f) = (splitChar '-' s).map (·.map f) := by
+  induction s with
+  | nil => rfl
+  | cons c cs ih =>
+    simp only [List.map_cons, splitChar]
+    have hc := hf c
+    by_cases e : c = '-'
+    · subst e
+      have : f '-' = '-' := by simpa using hc
+      simp [this, ih]
+    · have hne : ¬ f c = '-' := by
+        intro h'; rw [h'] at hc; simp at hc; exact e hc
+      simp only [e, hne, if_false, ih]
+      cases splitChar '-' cs with
+      | nil => rfl
+      | cons w ws => rfl
+
+/-- **the conventional capitalisation is idempotent and does not depend on the case of the input**, for every name -/
+theorem conventional_idem (name : Str) : conventional (conventional name) = conventional name := by
+  rw [conventional_eq name, conventional_eq]
+  rw [splitChar_join '-' _ (by simpa using Py.splitChar_ne_nil '-' name)
+    (by
+      intro p hp
+      simp only [List.mem_map] at hp
+      obtain ⟨w, hw, rfl⟩ := hp
+      exact convWord_noDash w (splitChar_no_sep '-' name w hw))]
+  rw [List.map_map]
+  congr 1
+  apply List.map_congr_left
+  intro w _
+  exact convWord_idem w
+
+theorem conventional_lower (name : Str) : conventional (lowerAscii name) = conventional name := by
+  rw [conventional_eq, conventional_eq]
+  unfold lowerAscii
+  rw [splitChar_map lowerAsciiChar (fun c => (case_facts c).2.2.2.2.1), List.map_map]
+  congr 1
+  apply List.map_congr_left
+  intro w _
+  exact convWord_lower w
+
+theorem conventional_upper (name : Str) : conventional (name.map upperAsciiChar) = conventional name := by
+  rw [conventional_eq, conventional_eq]
+  rw [splitChar_map upperAsciiChar (fun c => (case_facts c).2.2.2.2.2), List.map_map]
+  congr 1
+  apply List.map_congr_left
+  intro w _
+  exact convWord_upper w
+
+
+/-! ### the typed values -/
+
+/-- what `parse_control_fields` makes of one item -/
+def GoodT (kv : Str × Str) (nt : Str × Typed) : Prop :=
+  nt.1 = normalizeName kv.1 ∧
+  match nt.2 with
+  | .deps _ => Generated.depsFields.contains (String.ofList nt.1) = true
+  | .int k => Generated.depsFields.contains (String.ofList nt.1) = false ∧ nt.1 = "Installed-Size".toList ∧ pyInt kv.2 = .ok k
+  | .raw s => Generated.depsFields.contains (String.ofList nt.1) = false ∧ nt.1 ≠ "Installed-Size".toList ∧ s = kv.2
+
+inductive All2 {α β} (R : α → β → Prop) : List α → List β → Prop
+  | nil : All2 R [] []
+  | cons {a b as bs} : R a b → All2 R as bs → All2 R (a :: as) (b :: bs)
+
+theorem parseControlItems_ok (i : List (Str × Str)) (ts : List (Str × Typed)) (h : parseControlItems i = .ok ts) :
+    All2 GoodT i ts := by
+  induction i generalizing ts with
+  | nil =>
+    simp only [parseControlItems] at h
+    cases h; exact All2.nil
+  | cons kv rest ih =>
+    obtain ⟨name, v⟩ := kv
+    simp only [parseControlItems] at h
+    by_cases hd : Generated.depsFields.contains (String.ofList (normalizeName name)) = true
+    · simp only [hd, if_true] at h
+      cases hp : Model.DepsParse.parseDepends v with
+      | error e => rw [hp] at h; cases h
+      | ok r =>
+        rw [hp] at h
+        simp only at h
+        cases hr : parseControlItems rest with
+        | error e => rw [hr] at h; cases h
+        | ok ts' =>
+          rw [hr] at h
+          cases h
+          exact All2.cons ⟨rfl, hd⟩ (ih ts' hr)
+    · have hd' : Generated.depsFields.contains (String.ofList (normalizeName name)) = false := by simpa using hd
+      simp only [hd', Bool.false_eq_true, if_false] at h
+      by_cases hs : normalizeName name = "Installed-Size".toList
+      · simp only [hs, if_true] at h
+        cases hp : pyInt v with
+        | error e => rw [hp] at h; cases h
+        | ok k =>
+          rw [hp] at h
+          simp only at h
+          cases hr : parseControlItems rest with
+          | error e => rw [hr] at h; cases h
+          | ok ts' =>
+            rw [hr] at h
+            cases h
+            refine All2.cons ⟨hs.symm ▸ rfl, ?_⟩ (ih ts' hr)
+            exact ⟨by rw [← hs]; exact hd', rfl, hp⟩
+      · simp only [hs, if_false] at h
+        cases hr : parseControlItems rest with
+        | error e => rw [hr] at h; cases h
+        | ok ts' =>
+          rw [hr] at h
+          cases h
+          exact All2.cons ⟨rfl, hd', hs, rfl⟩ (ih ts' hr)
+
+
+theorem All2.length {α β} {R : α → β → Prop} {as : List α} {bs : List β} (h : All2 R as bs) : bs.length = as.length := by
+  induction h with
+  | nil => rfl
+  | cons _ _ ih => simp [ih]
+
+theorem All2.zip_all {α β γ} {R : α → β → Prop} {as : List α} {bs : List β} (h : All2 R as bs) (F : β → γ)
+    (p : α × γ → Bool) (hp : ∀ a b, R a b → p (a, F b) = true) : (as.zip (bs.map F)).all p = true := by
+  induction h with
+  | nil => rfl
+  | cons hr _ ih => simp only [List.map_cons, List.zip_cons_cons, List.all_cons, hp _ _ hr, ih, Bool.and_self]
+
+theorem All2.keys {as : List (Str × Str)} {bs : List (Str × Typed)} (h : All2 GoodT as bs) :
+    bs.map (·.1) = as.map fun kv => normalizeName kv.1 := by
+  induction h with
+  | nil => rfl
+  | cons hr _ ih => simp only [List.map_cons, ih, hr.1]
+
+def ddk (acc : List Str) (ns : List Str) : List Str :=
+  ns.foldl (fun acc n => if acc.contains n then acc else acc ++ [n]) acc
+
+theorem ddk_length_le (ns acc : List Str) : (ddk acc ns).length ≤ acc.length + ns.length := by
+  induction ns generalizing acc with
+  | nil => simp [ddk]
+  | cons n ns ih =>
+    simp only [ddk, List.foldl_cons, List.length_cons]
+    split
+    · have := ih acc; simp only [ddk] at this; omega
+    · have := ih (acc ++ [n]); simp only [ddk, List.length_append, List.length_singleton] at this; omega
+
+theorem tset_absent (d : List (Str × Typed)) (k : Str) (v : Typed) (h : k ∉ d.map (·.1)) : tset d k v = d ++ [(k, v)] := by
+  induction d with
+  | nil => rfl
+  | cons a as ih =>
+    obtain ⟨a1, a2⟩ := a
+    simp only [List.map_cons, List.mem_cons, not_or] at h
+    have : ¬ a1 = k := fun e => h.1 e.symm
+    simp [tset, this, ih h.2]
+
+theorem fold_tset_distinct (ts d : List (Str × Typed))
+    (hlen : (ddk (d.map (·.1)) (ts.map (·.1))).length = d.length + ts.length) :
+    ts.foldl (fun d kv => tset d kv.1 kv.2) d = d ++ ts := by
+  induction ts generalizing d with
+  | nil => simp
+  | cons kv rest ih =>
+    simp only [List.map_cons, ddk, List.foldl_cons, List.length_cons] at hlen
+    have hnot : (d.map (·.1)).contains kv.1 = false := by
+      cases hc : (d.map (·.1)).contains kv.1 with
+      | false => rfl
+      | true =>
+        rw [hc] at hlen
+        simp only [if_true] at hlen
+        have := ddk_length_le (rest.map (·.1)) (d.map (·.1))
+        simp only [ddk, List.length_map] at this
+        omega
+    have hnm : kv.1 ∉ d.map (·.1) := by simpa using hnot
+    rw [hnot] at hlen
+    simp only [Bool.false_eq_true, if_false] at hlen
+    simp only [List.foldl_cons, tset_absent d kv.1 kv.2 hnm]
+    rw [ih (d ++ [(kv.1, kv.2)]) (by
+      simp only [List.map_append, List.map_cons, List.map_nil, List.length_append, List.length_singleton, ddk]
+      rw [hlen]; omega)]
+    simp [List.append_assoc]
+
+theorem relFields_contains (n : Str) :
+    relationshipFields.contains (String.ofList n) = Generated.depsFields.contains (String.ofList n) := by
+  obtain ⟨h1, h2⟩ := depsFields_eq_policy
+  cases hc : Generated.depsFields.contains (String.ofList n) with
+  | true =>
+    have := h1 _ (List.contains_iff_mem.mp hc)
+    exact List.contains_iff_mem.mpr this
+  | false =>
+    cases hr : relationshipFields.contains (String.ofList n) with
+    | false => rfl
+    | true =>
+      have := h2 _ (List.contains_iff_mem.mp hr)
+      have := List.contains_iff_mem.mpr this
+      rw [hc] at this; cases this
+
+/-- **C19, typed fields**: for every control paragraph whose normalised names are distinct, whenever the model of
+`parse_control_fields` returns, it returns one entry per input field, in order, under the conventional
+capitalisation of its name (idempotent, independent of the case of the input), holding the parsed relationship for
+policy's relationship fields, the integer for `Installed-Size`, and the raw string for every other field -/
+theorem soundT (i : InputT) : holdsOnT i (modelT i) = true := by
+  unfold holdsOnT
+  cases hH : (i.all (fun kv => asciiName kv.1) && distinctNorm i) with
+  | false => rfl
+  | true =>
+    simp only [Bool.not_true, Bool.false_or]
+    simp only [Bool.and_eq_true] at hH
+    obtain ⟨_, hdist⟩ := hH
+    unfold modelT parseControlFields
+    cases hp : parseControlItems i with
+    | error e => rfl
+    | ok ts =>
+      simp only
+      have hall := parseControlItems_ok i ts hp
+      have hkeys : ts.map (·.1) = i.map fun kv => conventional kv.1 := by
+        rw [hall.keys]
+        apply List.map_congr_left
+        intro kv _; exact normalize_eq_conventional kv.1
+      have hfold : ts.foldl (fun d kv => tset d kv.1 kv.2) [] = ts := by
+        have := fold_tset_distinct ts [] (by
+          simp only [List.map_nil, List.length_nil, Nat.zero_add, hkeys, ddk]
+          simp only [distinctNorm, beq_iff_eq] at hdist
+          rw [← hdist, List.length_map]; exact hall.length.symm)
+        simpa using this
+      rw [hfold]
+      simp only [Bool.and_eq_true, beq_iff_eq]
+      refine ⟨by simp [hall.length], ?_⟩
+      apply hall.zip_all
+      intro kv nt hg
+      obtain ⟨hn, hty⟩ := hg
+      have hn' : nt.1 = conventional kv.1 := by rw [hn, normalize_eq_conventional]
+      simp only [Bool.and_eq_true, beq_iff_eq]
+      refine ⟨⟨⟨⟨hn', conventional_idem kv.1⟩, conventional_lower kv.1⟩, conventional_upper kv.1⟩, ?_⟩
+      cases hnt : nt.2 with
+      | deps r =>
+        rw [hnt] at hty
+        simp only [Bool.and_eq_true, beq_iff_eq]
+        refine ⟨?_, ?_⟩
+        · rw [relFields_contains, ← hn']; exact hty
+        · exact Proto.Val.eqb_refl _
+      | int k =>
+        rw [hnt] at hty
+        simp only [Bool.and_eq_true, beq_iff_eq]
+        refine ⟨by rw [← hn']; exact hty.2.1, ?_⟩
+        rw [hty.2.2]; simp
+      | raw s =>
+        rw [hnt] at hty
+        simp only [Bool.and_eq_true, Bool.not_eq_true', beq_iff_eq, bne_iff_ne, ne_eq]
+        refine ⟨⟨?_, ?_⟩, hty.2.2⟩
+        · rw [relFields_contains, ← hn']; exact hty.1
+        · rw [← hn']; exact hty.2.1
+
 
 end Props.C19
